@@ -60,10 +60,28 @@ def r18_1(ctx: Ctx) -> None:
                 if call_name(c) in ("transmit_frame", "transmit"):
                     medium = unparse(c.func.value)
 
+        def wraps_admission(x: ast.AST, medium=medium, f=f) -> bool:
+            """`self.helper(frame)` where the helper answers True only past the true edge of <medium>.can_transmit_frame(frame) (an
+            admission test that was given a name, e.g. together with its log line)."""
+            if not (isinstance(x, ast.Call) and isinstance(x.func, ast.Attribute) and isinstance(x.func.value, ast.Name) and x.func.value.id == "self"
+                    and f.cls is not None and x.args and unparse(x.args[0]) == "frame"):
+                return False
+            h = ix.find_method(f.cls, x.func.attr)
+            if h is None or isinstance(h.node, ast.Lambda):
+                return False
+            gh = CFG(h.node)
+            trues = [r for r in gh.nodes if r.kind == "stmt" and isinstance(r.ast, ast.Return) and not (
+                isinstance(r.ast.value, ast.Constant) and r.ast.value.value in (False, None))]
+            inner = lambda e: bool(e.label and e.label[0] == "cond" and e.label[2] is True and isinstance(e.label[1], ast.Call)  # noqa: E731
+                                   and call_name(e.label[1]) == "can_transmit_frame" and unparse(e.label[1].func.value) == medium)
+            return bool(trues) and gh.path_avoiding(trues, inner) is None
+
         def sat(e, medium=medium) -> bool:
             if not (e.label and e.label[0] == "cond" and e.label[2] is True):
                 return False
             x = e.label[1]
+            if wraps_admission(x):
+                return True
             return isinstance(x, ast.Call) and call_name(x) == "can_transmit_frame" and unparse(x.func.value) == medium \
                 and x.args and unparse(x.args[0]) == "frame"
 
